@@ -98,11 +98,10 @@ func extractFirstBytesRecursive(re *syntax.Regexp, result *FirstByteSet, depth i
 		// Character class: add all bytes in the class
 		for i := 0; i < len(re.Rune); i += 2 {
 			lo, hi := re.Rune[i], re.Rune[i+1]
-			if hi > 255 {
-				hi = 255 // Truncate to ASCII
-			}
-			if lo > 255 {
-				continue // Skip non-ASCII ranges
+			if hi >= 0x80 {
+				// Runes >= 0x80 are multi-byte in UTF-8 (and U+FFFD also stands
+				// for invalid bytes): conservatively allow every non-ASCII byte.
+				lo, hi = min(lo, 0x80), 0xFF
 			}
 			for r := lo; r <= hi; r++ {
 				if !result.bytes[byte(r)] {
@@ -162,7 +161,14 @@ func extractFirstBytesRecursive(re *syntax.Regexp, result *FirstByteSet, depth i
 	case syntax.OpAlternate:
 		// Alternation: union of all branches
 		for _, sub := range re.Sub {
+			before := result.count
 			if !extractFirstBytesRecursive(sub, result, depth+1) {
+				return false
+			}
+			if result.count == before && sub.Op != syntax.OpCharClass && sub.Op != syntax.OpLiteral {
+				// Zero-width branch (^, $, ...): it can match in front of
+				// bytes that are not in the set, so the set is not exhaustive.
+				result.complete = false
 				return false
 			}
 		}
